@@ -1,0 +1,36 @@
+//go:build verif
+
+package go9p
+
+import "sync/atomic"
+
+// VerifHook, when set, is called at the named schedule points of the server
+// and client goroutines (build tag verif only). obj is the *SrvReq, *Req,
+// *Conn or *Clnt at hand. The verification harness uses it to hold one
+// goroutine at a point until another has passed another point.
+var VerifHook atomic.Pointer[func(point string, obj interface{})]
+
+func verifPoint(point string, obj interface{}) {
+	if h := VerifHook.Load(); h != nil {
+		(*h)(point, obj)
+	}
+}
+
+// VerifCounts returns the number of outstanding requests and of fids of the
+// connection (read-only).
+func (conn *Conn) VerifCounts() (reqs, fids int) {
+	conn.Lock()
+	defer conn.Unlock()
+	return len(conn.reqs), len(conn.fidpool)
+}
+
+// VerifCounts returns the number of requests awaiting a reply and the number
+// of free tags (read-only).
+func (clnt *Clnt) VerifCounts() (outstanding, freeTags int) {
+	clnt.Lock()
+	defer clnt.Unlock()
+	for r := clnt.reqfirst; r != nil; r = r.next {
+		outstanding++
+	}
+	return outstanding, len(clnt.tagpool.id)
+}
